@@ -288,5 +288,42 @@ CHECKS["C13"] = {
     "thorough": G_LOCKS[2:] + S_RACE[:4] + U_SUBS_Q[:1] + WIT_ITER_T,
 }
 
+_W_DISP = "one dispatch through a given entry point against a FULL queue (loop not scheduled; a blocked BlockOnFull sender is served by one reducer-side take): BlockOnFull waits and is then accepted and enqueued, nothing is handed to a worker, DropOldest evicts+counts the oldest, DropLatest discards+counts the new one and Dispatcher::dispatch reports Err"
+def _ud(n, b):
+    return _ph(n, _W_DISP, b)
+U_DISP_Q = [_ud("u_dispatch_block_cap1_inherent", "BlockOnFull, capacity 1, StoreImpl::dispatch"), _ud("u_dispatch_block_cap2_dispatcher", "BlockOnFull, capacity 2, Dispatcher::dispatch"), _ud("u_dispatch_oldest_cap1_dispatcher", "DropOldest, capacity 1, Dispatcher::dispatch"), _ud("u_dispatch_latest_cap1_dispatcher", "DropLatest, capacity 1, Dispatcher::dispatch")]
+U_DISP_T = [_ud("u_dispatch_block_cap1_trait", "BlockOnFull, Store::dispatch"), _ud("u_dispatch_oldest_cap2_inherent", "DropOldest, capacity 2, StoreImpl::dispatch"), _ud("u_dispatch_latest_cap2_dispatcher", "DropLatest, capacity 2"), _ud("u_dispatch_latest_cap1_inherent", "DropLatest, StoreImpl::dispatch")]
+_W_LATE = "add_middleware / add_reducer by another thread placed inside a callback of action 0 (real do_reduce; skipped/pruned where the reducer context holds the list's lock); action 1 dispatched afterwards must run the late component, after the earlier ones"
+S_LATE = [_ph(n, _W_LATE, b, may_be_pruned=True) for n, b in [("s_late_mw_in_before_reduce0", "add_middleware inside middleware 0's before_reduce"), ("s_late_mw_in_before_reduce1", "add_middleware inside middleware 1's before_reduce"), ("s_late_mw_in_reducer0", "add_middleware inside reducer 0"), ("s_late_reducer_in_before_reduce1", "add_reducer inside middleware 1's before_reduce"), ("s_late_reducer_in_reducer1", "add_reducer inside reducer 1")]]
+CHECKS["C02"]["quick"] += U_DISP_Q[:2]
+CHECKS["C02"]["thorough"] += U_DISP_T[:1]
+CHECKS["C05"]["quick"] += U_DISP_Q[:2]
+CHECKS["C05"]["thorough"] += U_DISP_T[:1]
+CHECKS["C06"]["quick"] += U_DISP_Q[2:]
+CHECKS["C06"]["thorough"] += U_DISP_T[1:]
+CHECKS["C18"]["thorough"] += U_DISP_Q[2:]
+CHECKS["C07"]["quick"] += [S_LATE[0], S_LATE[2], S_LATE[4]] + U_SUBS_Q[1:2]
+CHECKS["C07"]["thorough"] += [S_LATE[1], S_LATE[3]] + U_SUBS_Q[2:]
+CHECKS["C07"]["bounds"] += "; run-time registration: add_middleware/add_reducer placed inside a callback of the current action (5 placements), next action must include the component; registration order kept after an unsubscribe (3 subscribers)"
+CHECKS["C03"]["quick"] += U_SUBS_Q[1:2]
+CHECKS["C03"]["thorough"] += U_SUBS_Q[2:] + U_SUBS_T
+CHECKS["C03"]["bounds"] += "; registration order of the remaining subscribers after an unsubscribe (3 subscribers)"
+
+_W_FULL = "shutdown with a FULL queue under a drop policy (the shutdown marker itself goes through the policy: DropLatest discards it and the loop ends by disconnection, DropOldest evicts and counts the oldest action); phases summarised; oracle: survivors reduced once in order, conservation with the dropped counter, loop ends, subscribers released, dispatch rejected afterwards"
+G_FULL = [_g("g_full_latest_k2_stop", _W_FULL, "DropLatest, 2 queued actions, stop()"), _g("g_full_oldest_k2_stop", _W_FULL, "DropOldest, 2 queued actions, stop()"), _g("g_full_latest_k1_drop", _W_FULL, "DropLatest, 1 queued action, drop(DroppableStore)"), _g("g_full_oldest_k3_drop", _W_FULL, "DropOldest, 3 queued actions, drop(DroppableStore)")]
+CHECKS["C04"]["quick"] += G_FULL[:1]
+CHECKS["C04"]["thorough"] += G_FULL[1:]
+CHECKS["C06"]["quick"] += G_FULL[:2]
+CHECKS["C06"]["thorough"] += G_FULL[2:]
+CHECKS["C09"]["quick"] += G_FULL[:1]
+CHECKS["C09"]["thorough"] += G_FULL[1:]
+CHECKS["C15"]["quick"] += G_FULL[2:3]
+CHECKS["C15"]["thorough"] += G_FULL[3:]
+CHECKS["C18"]["quick"] += G_FULL[1:2]
+CHECKS["C18"]["thorough"] += G_FULL[:1]
+G_EFF_CTX = [_ge("g_effects_backlog_at_stop_ctx_task", _W_GE + "; dispatch(a); stop(); loop: whatever happens to the effect of a, it never runs in the reducer context and never twice; a itself is completely processed", "Task effect", timeout_s=600), _ge("g_effects_backlog_at_stop_ctx_thunk", _W_GE + "; same with a Thunk", "Thunk effect", timeout_s=600)]
+CHECKS["C11"]["quick"] += G_EFF_CTX[:1] + U_EFFECT_T[1:2]
+CHECKS["C11"]["thorough"] = [x for x in CHECKS["C11"]["thorough"] if x["name"] != U_EFFECT_T[1]["name"]] + G_EFF_CTX[1:]
+
 HOOK_COMMITS = ['da8b80e', '8cd617e', '39efd23']
 NOT_APPLICABLE = {}
